@@ -850,6 +850,9 @@ class ModelMixin(ModelMixin2, ModelMixin3):
     def model_slice_store(self, c, slc, bounds, val, st: State, node):
         """parent[a:b] = nodes : replaces the whole range of existing children by the given nodes"""
         if isinstance(c, Ref) and c.kind == 'elem':
+            width = self._slice_width(bounds, st)
+            if width in (0, 1) and 'step' not in bounds and isinstance(bounds.get('lower'), Ref) and isinstance(val, (Ref, TupleV)):
+                return self._slice_as_inserts(c, bounds['lower'], width, val, st, node)
             self.hook('slice-store', st, node, parent=c, slice=norm(slc) if hasattr(slc, 'lower') else '?', value=val)
             for sym, e in self.parent_indices(c.sym, st):
                 if e.kind in ('fresh', 'slot', 'end'):
@@ -865,6 +868,50 @@ class ModelMixin(ModelMixin2, ModelMixin3):
             return [(self.exc('TypeError', st, node, "'NoneType' object does not support item assignment"), st)]
         self.note('slice store on ' + type(c).__name__)
         return [(NoneV(), st)]
+
+    def _slice_width(self, bounds, st: State):
+        """0 for parent[i:i], 1 for parent[i:i+1] (both bounds derived from the same index), else None"""
+        lo, up = bounds.get('lower'), bounds.get('upper')
+        if not (isinstance(lo, Ref) and lo.kind == 'idx' and isinstance(up, Ref) and up.kind == 'idx'):
+            return None
+        if lo.sym == up.sym:
+            return 0
+        a, b = st.get(lo.sym), st.get(up.sym)
+        if a.kind == b.kind and a.parent == b.parent and a.anchor == b.anchor and a.kind in ('fresh', 'slot'):
+            d = b.delta - a.delta
+            return d if d in (0, 1) else None
+        if a.kind == 'end' and b.kind == 'end' and a.parent == b.parent:
+            d = b.slack - a.slack
+            return d if d in (0, 1) else None
+        return None
+
+    def _slice_as_inserts(self, p: Ref, idx: Ref, width: int, val, st: State, node):
+        """parent[i:i] = nodes inserts the nodes, in order, at i; parent[i:i+1] = nodes first removes the child at i."""
+        Raise = _Raise()
+        outs = [(NoneV(), st)]
+        if width == 1:
+            ie = st.get(idx.sym)
+            if ie.kind == 'fresh' and ie.delta == 0 and ie.anchor in st.heap:
+                outs = self.do_remove(p, Ref('elem', ie.anchor), st, node)
+            else:
+                self.hook('remove-by-index', st, node, parent=p, idx=idx, entry=ie)
+        res = []
+        for v, s in outs:
+            if isinstance(v, Raise):
+                res.append((v, s))
+                continue
+            # the nodes are inserted at an advancing position, exactly like ``for k, n in enumerate(nodes, start=i)``
+            start = Ref('idx', idx.sym)
+            itval = IterV('enumerate', val, start)
+
+            def body(elem, s2):
+                counter, n = elem.items
+                rs = self.do_insert(p, counter, n, s2, node)
+                return [((('raise', r.exc) if isinstance(r, Raise) else 'next'), s3) for r, s3 in rs]
+            exits, escapes = self.run_loop(itval, s, body, node)
+            res.extend((NoneV(), s2) for _, s2 in exits)
+            res.extend((Raise(ctl[1]), s2) for ctl, s2 in escapes if isinstance(ctl, tuple) and ctl[0] == 'raise')
+        return res
 
     def model_delitem(self, c, i, st, node):
         if isinstance(c, Ref) and c.kind == 'elem' and isinstance(i, Ref) and i.kind == 'idx':
